@@ -433,6 +433,23 @@ def picked_function(v):
     mover(log, v)
     return log
 
+_KEY_A = "a"
+_KEYS = ("a", "b")
+_KEYSET = frozenset({"a", "c"})
+_FMT = "{}[{}]"
+
+def module_constants(d):
+    out = []
+    if _KEY_A in d:
+        out.append(d[_KEY_A])
+    for k in _KEYS:
+        out.append(k in d)
+    out.append([k for k in sorted(d) if k in _KEYSET])
+    out.append(_FMT.format(_KEY_A, len(d)))
+    _KEY_B = "shadow"
+    out.append(_KEY_B)
+    return out
+
 def make(container):
     def call(v):
         container.append(v)
@@ -463,6 +480,7 @@ INPUTS = {
     "require_form": [(1,), (3,)],
     "all_map": [([1, 2],), ([0, 1],), ([],)],
     "use_factory": [(1,), (2,)],
+    "module_constants": [({"a": 1, "c": 2},), ({},)],
     "picked_function": [(1,), ("x",)],
     "tuple_reads": [(1, 2), (None, 3)],
     "partial_rows": [({"a": [1], "b": [2]},), ({"c": [3]},), ({},)],
